@@ -53,6 +53,8 @@ type fsess struct {
 	compactRanges  [][2]int // log ranges of Compact calls
 	trivialHistory bool     // set by a check whose non-triviality rule the history does not meet
 	victims        []string // keys of the directed hazard prefix still to be deleted (inline writers prefer them)
+
+	inlineVictimDeletes int
 }
 
 type fevent struct {
@@ -114,9 +116,6 @@ func (s *fsess) open() error {
 func (s *fsess) key() string {
 	// bias to a few hot keys so that overwrites and deletes of live keys are common
 	s.lastHot = false
-	if s.inCompaction && len(s.victims) > 0 && core.Pct(s.ch, "inline_victim", 40) {
-		return s.victims[s.ch.Int("victimkey", 0, len(s.victims)-1)]
-	}
 	if core.Pct(s.ch, "hot", 50) {
 		n := 4
 		if n > len(s.ukeys) {
@@ -246,7 +245,20 @@ func (s *fsess) onYield(db *pogreb.DB, point string) {
 			err = s.put(s.key(), s.vlen())
 			s.inlineWriters++
 		case 1:
-			err = s.del(s.key())
+			k := s.key()
+			if len(s.victims) > 0 && core.Pct(s.ch, "inline_victim", 60) {
+				// late-delete variant: the inline writer deletes the victims (and does not
+				// prefer them for puts, which would only hide a resurrection)
+				k = s.victims[s.ch.Int("victimkey", 0, len(s.victims)-1)]
+			}
+			for _, v := range s.victims {
+				if v == k {
+					if _, live := s.model[k]; live {
+						s.inlineVictimDeletes++
+					}
+				}
+			}
+			err = s.del(k)
 			s.inlineWriters++
 			s.inlineDeletes++
 		case 2:
@@ -268,13 +280,18 @@ func (s *fsess) compact() error {
 	s.ch.Note("compact")
 	start := s.fs.LogLen()
 	before := map[uint64]bool{}
+	var curBefore uint64
 	_ = core.Safe(func() error {
 		for _, sg := range s.db.VerifSegments() {
 			before[sg.SequenceID] = true
+			if sg.Current {
+				curBefore = sg.SequenceID
+			}
 		}
 		return nil
 	})
 	inlineBefore := s.inlineDeletes
+	victimDelBefore := s.inlineVictimDeletes
 	s.fs.Mark("CB")
 	pogreb.VerifCompactionYield = s.onYield
 	s.inCompaction = true
@@ -310,6 +327,18 @@ func (s *fsess) compact() error {
 		for seq := range before {
 			if !after[seq] && seq > minSurvivor {
 				removedNewer++
+			}
+		}
+		if len(s.victims) > 0 {
+			s.st.Count("late_delete_compactions", 1)
+			if curBefore != 0 && !after[curBefore] {
+				s.st.Count("late_delete_compactions_removing_the_segment_that_was_current", 1)
+				if removedNewer > 0 && s.inlineVictimDeletes > victimDelBefore {
+					s.st.Count("late_delete_compactions_with_inline_victim_delete_and_older_survivor", 1)
+				}
+			}
+			if s.inlineVictimDeletes > victimDelBefore {
+				s.st.Count("late_delete_compactions_with_inline_victim_delete", 1)
 			}
 		}
 		if removedNewer > 0 {
@@ -457,8 +486,14 @@ func (s *fsess) hazardPrefill() error {
 	// churn on keys that do not live in the old segment
 	churn := func(label string) error {
 		hot := bKeys[s.ch.Int(label, 0, len(bKeys)-1)]
-		for i, n := 0, s.ch.Int("churn_n", 0, 8); i < n; i++ {
-			if err := s.put(hot, core.PickInt(s.ch, "churn_vlen", []int{5, 20, 60})); err != nil {
+		lo, vl := 0, []int{5, 20, 60}
+		if late && label == "churnkey2" {
+			// enough garbage for the segment that is current when Compact is called to be
+			// eligible on its own merits under most drawn thresholds
+			lo, vl = 5, []int{60, 120}
+		}
+		for i, n := 0, s.ch.Int("churn_n", lo, 8+lo); i < n; i++ {
+			if err := s.put(hot, core.PickInt(s.ch, "churn_vlen", vl)); err != nil {
 				return err
 			}
 		}
